@@ -111,3 +111,23 @@ def playback(crate_dir, harness, target_name, timeout=240):
     m = re.search(r"Concrete playback unit test for `[^`]*`:\n```\n(.*?)```", out, re.S)
     failed = "\n".join(l for l in out.splitlines() if l.startswith("Failed Checks:") or l.strip().startswith("File:"))
     return {"unit_test": m.group(1) if m else None, "failed_checks": failed, "output_tail": out[-4000:]}
+
+
+def attach_counterexamples(obs, crate_dir, target_name, out, limit=2):
+    """For failed obligations: ask Kani for concrete values (one harness at a time) and replay
+    them natively against the real function bodies (vlib/replay.py). Best effort: the verdict
+    never depends on it."""
+    from . import replay as _replay
+    n = 0
+    for o in obs:
+        if o.status == "failed" and o.kind in ("proof", "bounded"):
+            o.output = out[-6000:]
+            n += 1
+            if n > limit:
+                continue
+            try:
+                o.playback = playback(crate_dir, o.name, target_name)
+                vals = _replay.parse_concrete_vals(o.playback.get("unit_test"))
+                o.playback["replay"] = _replay.native_replay(crate_dir, o.name, vals, target_name)
+            except Exception as ex:  # pragma: no cover
+                o.playback = {"error": repr(ex)}
